@@ -5,6 +5,7 @@ import (
 	"fmt"
 	"math"
 	"reflect"
+	"strconv"
 )
 
 // VKind classifies a (type, bytes) pair.
@@ -323,6 +324,7 @@ func (d *mdec) value(t *TypeSpec, pos int, cur Val, depth int, isField bool) (Va
 		}
 		d.v.Prealloc += uint64(l) * (elemFootprint(t.Key) + elemFootprint(t.Elem) + 16)
 		out := Val{M: make([]KV, 0, min(l, 1<<16))}
+		var idx map[string]int
 		for i := 0; i < l; i++ {
 			k, end, ok := d.value(t.Key, pos, d.freshElem(t.Key), depth+1, false)
 			if !ok {
@@ -333,7 +335,26 @@ func (d *mdec) value(t *TypeSpec, pos int, cur Val, depth int, isField bool) (Va
 				return cur, pos, false
 			}
 			pos = end2
-			if j := findKey(t.Key, out.M, k); j >= 0 {
+			// duplicate detection: linear while small, through an index beyond that
+			j := -1
+			if idx == nil && len(out.M) >= 32 {
+				idx = make(map[string]int, l)
+				for x := range out.M {
+					if ks, ok := goKeyString(t.Key, out.M[x].K); ok {
+						idx[ks] = x
+					}
+				}
+			}
+			if idx == nil {
+				j = findKey(t.Key, out.M, k)
+			} else if ks, ok := goKeyString(t.Key, k); ok {
+				if x, hit := idx[ks]; hit {
+					j = x
+				} else {
+					idx[ks] = len(out.M)
+				}
+			}
+			if j >= 0 {
 				d.gray("duplicate map key")
 				out.M[j] = KV{k, v}
 			} else {
@@ -374,6 +395,32 @@ func (d *mdec) freshElem(t *TypeSpec) Val {
 func structIsFresh(s *StructSpec, v *SVal) bool {
 	return EqualStruct(s, v, FreshStruct(s), EqOpts{}, "") == nil ||
 		EqualStruct(s, v, ZeroStruct(s), EqOpts{}, "") == nil
+}
+
+// goKeyString renders a key so that two keys are equal under Go map-key equality iff their
+// strings are equal; ok=false for keys that equal no other key (NaN, struct pointers).
+func goKeyString(t *TypeSpec, k Val) (string, bool) {
+	switch t.Kind {
+	case KBool:
+		if k.B {
+			return "t", true
+		}
+		return "f", true
+	case KI8, KI16, KI32, KI64, KEnum:
+		return strconv.FormatInt(k.I, 10), true
+	case KDouble:
+		f := math.Float64frombits(k.F)
+		if f != f {
+			return "", false
+		}
+		if f == 0 {
+			return "0", true // +0 == -0
+		}
+		return strconv.FormatUint(k.F, 16), true
+	case KString:
+		return string(k.S), true
+	}
+	return "", false
 }
 
 // findKey finds an entry whose key is equal under Go map-key equality.
